@@ -307,6 +307,28 @@ def _check_budget(ctx: Ctx, fn: FuncInfo) -> None:
             seen_cmp.append('%s > %s' % (tb.pretty()[:50], ts.pretty()[:30]))
             if tb == S and ts == T.Term.sym(budget):
                 over = True
+    # a conjunct that bounds the number of channels still on, `remaining > t` as terms: dropping may go on as long as one channel
+    # remains (t = 0); a larger t keeps unaffordable channels on (negative powers), a smaller one lets the loop drop the last channel
+    bound_problem = None
+    for cj in conjuncts(test):
+        if isinstance(cj, ast.Compare) and len(cj.ops) == 1 and isinstance(cj.ops[0], (ast.Gt, ast.Lt, ast.GtE, ast.LtE)):
+            big, small = (cj.left, cj.comparators[0]) if isinstance(cj.ops[0], (ast.Gt, ast.GtE)) else (cj.comparators[0], cj.left)
+            try:
+                dterm = T.from_ast(big, env) - T.from_ast(small, env) - n_on
+            except T.Unknown:
+                continue
+            if dterm.is_const():
+                c_ = -dterm.const_value()                       # big - small = remaining - c
+                t_ = c_ if isinstance(cj.ops[0], (ast.Gt, ast.Lt)) else c_ - 1
+                if t_ != 0:
+                    bound_problem = (norm(cj), t_)
+    if bound_problem is not None:
+        ctx.obligation('C12.e', 'doWF:drop-while-unaffordable', False, {'loop_test': norm(test), 'bound': bound_problem[0], 'continues_while_remaining_above': str(bound_problem[1])})
+        ctx.violation('C12.e', 'doWF', 'the drop loop goes on only while more than %s channel(s) remain (`%s`): %s' % (
+            bound_problem[1], bound_problem[0][:60],
+            'an unaffordable allocation of the last %s channels is kept, the weaker of them gets negative power' % (bound_problem[1] + 1)
+            if bound_problem[1] > 0 else 'it can switch off the last channel'), fn.path, whiles[0].lineno, operand='drop-bound')
+        return
     imp = seen_cmp
     ok2 = over
     ctx.obligation('C12.e', 'doWF:drop-while-unaffordable', ok2, {'loop_test': norm(test), 'implied': sorted(imp)})
